@@ -1,3 +1,4 @@
 -- Root of the `OapiVerif` library: every property file.
 import OapiVerif.Props.C15
 import OapiVerif.Props.C16
+import OapiVerif.Props.C14
